@@ -24,7 +24,7 @@ META = {
         'wavelength; C11.SCALE-FREE - no decision inside combine1fiber compares a flux-scaled quantity with an absolute tolerance or identifies two grids by a tolerance test, and the inverse-variance interpolation runs for every overlapping exposure; C11.ZSHIFT - in preprocess_spectra the wavelength argument of combine1fiber is rowloglam - logshift[iobj] '
         'with logshift = log10(1 + zfit), computed afresh for every object (no in-place accumulation). NOT decided: ivar >= 0, '
         'exact zeros outside good neighbours, identity on the same grid, scaling laws, interpolation bound (numerical).'),
-    'floors': {'C11.DTYPE-MIX': 5, 'C11.EMPTY-AGG': 6, 'C11.SCRUB': 4, 'C11.PER-EXPOSURE': 1, 'C11.ZSHIFT': 2, 'C11.SCALE-FREE': 4, 'C11.NONE-DEREF': 1},
+    'floors': {'C11.BMASK-KIND': 1, 'C11.DTYPE-MIX': 5, 'C11.EMPTY-AGG': 6, 'C11.SCRUB': 4, 'C11.PER-EXPOSURE': 1, 'C11.ZSHIFT': 2, 'C11.SCALE-FREE': 4, 'C11.NONE-DEREF': 1},
     'trusted_base': ['NumPy 2 (NEP 50): a signed integer array and a numpy.uint64 scalar have no common integer type for bitwise ufuncs'],
 }
 
@@ -348,6 +348,128 @@ def check_scale_free(ctx, repo):
                   msg='the inverse-variance interpolation is skipped under `%s`' % extra, construct='conditional ivar interpolation %s' % extra)
 
 
+def check_ivar_thresholds(ctx, repo):
+    """C11.SCALE-FREE (weights): a quantity that scales with the inverse variance is never compared with an absolute tolerance, and a
+    call without objivar never hands synthetic unit weights to the rejection fit (its thresholds would become absolute flux units)."""
+    f = repo.func(SPEC2D, 'combine1fiber')
+    fa = FA(f)
+    tainted = {'newivar', 'objivar', 'combivar'}
+    changed = True
+    while changed:
+        changed = False
+        for st in walk_local(f.node):
+            if isinstance(st, ast.Assign) and isinstance(st.targets[0], ast.Name) and st.targets[0].id not in tainted:
+                v = st.value
+                linear = isinstance(v, ast.Call) and call_name(v) in ('smooth', 'absolute', 'abs', 'ravel', 'copy', 'sum', 'median', 'mean')
+                if linear and any(isinstance(x, ast.Name) and x.id in tainted for x in ast.walk(v)):
+                    tainted.add(st.targets[0].id)
+                    changed = True
+    n = 0
+    for c in walk_local(f.node):
+        if not (isinstance(c, ast.Compare) and len(c.ops) == 1):
+            continue
+        sides = [c.left, c.comparators[0]]
+        for a, b in (sides, sides[::-1]):
+            core = a
+            while isinstance(core, ast.Call) and call_name(core) in ('absolute', 'abs') and core.args:
+                core = core.args[0]
+            is_w = (isinstance(core, ast.Name) and core.id in tainted) or (isinstance(core, ast.Subscript) and isinstance(core.value, ast.Name) and core.value.id in tainted) \
+                or (isinstance(core, ast.Call) and call_name(core) in ('ravel', 'smooth') and any(isinstance(x, ast.Name) and x.id in tainted for x in ast.walk(core)))
+            if not is_w:
+                continue
+            k = try_fold(b, resolver=fa.resolve)
+            absolute = (isinstance(k, (int, float)) and k != 0) or (isinstance(b, ast.Name) and b.id.upper() in ('EPS', 'EPSILON', 'TOL', 'TINY')) \
+                or any(isinstance(x, ast.Call) and call_name(x) == 'finfo' for x in ast.walk(fa.deep(b) if isinstance(b, ast.Name) else b))
+            n += 1
+            ctx.check('C11.SCALE-FREE', not absolute, f, c, 'weight test `%s` compares with exactly zero' % src(c)[:50],
+                      msg='`%s` compares an inverse-variance-scaled quantity with the absolute tolerance `%s`: with flux in units that make the weights smaller '
+                          'than that (flux x 1e4 -> ivar x 1e-8) every pixel is declared bad and loses its inverse variance' % (src(c)[:60], src(b)[:20]),
+                      construct='absolute tolerance on weights: ' + src(c)[:60])
+            break
+    ctx.need(n >= 1, 'combine1fiber: no test on the output inverse variance found')
+    # the rejection fit of a call without objivar must estimate the variance itself
+    for c in walk_local(f.node):
+        if isinstance(c, ast.Call) and call_name(c) == 'iterfit':
+            for k_ in c.keywords:
+                if k_.arg == 'invvar':
+                    roots = [x for x in ast.walk(k_.value) if isinstance(x, ast.Name) and isinstance(x.ctx, ast.Load)]
+                    synthetic = []
+                    for x in roots:
+                        if x.id == 'objivar':
+                            continue
+                        for d, v in fa.defs(x):
+                            if v is not None and isinstance(v, ast.Call) and call_name(v) in ('ones', 'ones_like', 'full', 'full_like'):
+                                synthetic.append((x.id, v))
+                    ctx.check('C11.SCALE-FREE', not synthetic, f, c, 'iterfit is weighted with the caller\'s inverse variance only (`%s`)' % src(k_.value)[:40],
+                              msg='iterfit receives `invvar=%s`, and `%s = %s` reaches it when objivar is None: with unit weights the 5-sigma rejection becomes '
+                                  '"5 flux units", so spectra with flux ~1e3 lose good pixels' % (src(k_.value)[:30], synthetic[0][0] if synthetic else '',
+                                                                                             src(synthetic[0][1])[:40] if synthetic else ''),
+                              construct='synthetic weights reach iterfit: ' + src(k_.value)[:40])
+
+
+def check_bmask_kind(ctx, repo):
+    """C11.BMASK-KIND: `~bmask` needs the boolean mask of a fit.  The groups that were not fitted carry `bmask = np.zeros(len(ss))`
+    (float) together with `sset = None`; `~` on a float array raises TypeError.  A use of `~bmask` is accepted only if no float
+    definition reaches it on a path that respects the companion fact sset-is-None (the true edge of a test `sset is not None ...`
+    cannot be taken while sset is None)."""
+    f = repo.func(SPEC2D, 'combine1fiber')
+    fa = FA(f)
+    cfg = fa.cfg
+    inverts = [n for n in walk_local(f.node) if isinstance(n, ast.UnaryOp) and isinstance(n.op, ast.Invert) and isinstance(n.operand, ast.Name) and n.operand.id == 'bmask']
+    ctx.need(inverts, 'combine1fiber: ~bmask not found')
+    float_defs = []
+    all_defs = []
+    for st in walk_local(f.node):
+        if isinstance(st, ast.Assign):
+            for t in st.targets:
+                names = [t] if isinstance(t, ast.Name) else (list(t.elts) if isinstance(t, ast.Tuple) else [])
+                if any(isinstance(x, ast.Name) and x.id == 'bmask' for x in names):
+                    all_defs.append(st)
+                    v = st.value
+                    if isinstance(v, ast.Call) and call_name(v) in ('zeros', 'ones', 'empty') and not any(
+                            k.arg == 'dtype' and ('bool' in src(k.value)) for k in v.keywords):
+                        float_defs.append(st)
+
+    def sset_none_with(st):
+        blk = getattr(st, '_parent', None)
+        for fld in ('body', 'orelse'):
+            lst = getattr(blk, fld, None)
+            if isinstance(lst, list) and any(x is st for x in lst):
+                return any(isinstance(x, ast.Assign) and src(x.targets[0]) == 'sset' and isinstance(x.value, ast.Constant) and x.value.value is None for x in lst)
+        return False
+
+    def excludes_none(test):
+        vals = test.values if isinstance(test, ast.BoolOp) and isinstance(test.op, ast.And) else [test]
+        return any(src(v).replace(' ', '') in ('ssetisnotNone', 'sset!=None') for v in vals)
+    for inv in inverts:
+        targets = {n.id for n in cfg.node_of_expr(inv)}
+        ctx.need(targets, 'combine1fiber: ~bmask is not in the CFG')
+        reach_bad = None
+        for d in float_defs:
+            correlated = sset_none_with(d)
+            kill = {n.id for st in all_defs if st is not d for n in cfg.nodes_of(st)}
+            # sset re-bound to a fit result also ends the "sset is None" fact; those statements re-bind bmask too (tuple assignment)
+            seen = set()
+            stack = [m for n in cfg.nodes_of(d) for m, l in n.succ if l != 'exc']
+            while stack:
+                n = stack.pop()
+                if n.id in seen or n.id in kill:
+                    continue
+                seen.add(n.id)
+                for m, l in n.succ:
+                    if correlated and n.kind == 'test' and l is True and excludes_none(n.ast if hasattr(n, 'ast') and n.ast is not None else n.stmt.test):
+                        continue
+                    stack.append(m)
+            if targets & seen:
+                reach_bad = d
+                break
+        ctx.check('C11.BMASK-KIND', reach_bad is None, f, inv, '`~bmask` at line %d is reached only by the boolean mask of a fit' % inv.lineno,
+                  msg='`~bmask` at line %d can be reached by `%s` (line %d), a float array of the groups that were not fitted: `~` raises TypeError, so a spectrum '
+                      'with a stranded run of 1-3 good pixels makes combine1fiber fail instead of returning zero inverse variance there'
+                      % (inv.lineno, src(reach_bad)[:40] if reach_bad is not None else '', reach_bad.lineno if reach_bad is not None else 0),
+                  construct='~bmask reached by a float mask')
+
+
 def check_none_deref(ctx, repo):
     """`objivar` is optional (default None): every dereference must be on a path where it is known not to be None."""
     from ..nullness import analyse
@@ -380,6 +502,8 @@ def check_none_deref(ctx, repo):
 def run(ctx):
     check_none_deref(ctx, ctx.repo)
     check_scale_free(ctx, ctx.repo)
+    check_ivar_thresholds(ctx, ctx.repo)
+    check_bmask_kind(ctx, ctx.repo)
     n = check_dtype_mix(ctx, ctx.repo)
     ctx.need(n >= 5, 'combine1fiber: fewer typed bitwise sites than confirmed by hand')
     check_empty_agg(ctx, ctx.repo)
